@@ -208,7 +208,10 @@ def extended_format_ternary_op(
         ):
             arg2 = get_instruction_arg(stack_inst2, stack_inst2.argrepr)
             k = skip_cache(instructions, j + 1)
-            stack_inst3 = instructions[k + 1]
+            if k >= len(instructions):
+                # The third operand is not among the instructions we have.
+                return fmt_str % (arg2, arg1, "..."), stack_inst2.start_offset
+            stack_inst3 = instructions[k]
             start_offset = stack_inst3.start_offset
             if (
                 stack_inst3.opcode in opc.operator_set
